@@ -3,6 +3,11 @@
 import json, subprocess
 ALL=[f"C{i:02d}" for i in range(1,20)]
 CLAIMED={
+ "C13": dict(
+   text="For every directory shape of a list (empty, freed slots, block boundaries, long names) every READDIR count in a dense range and a READDIRPLUS dircount x maxcount grid are enumerated with the client loop; completeness, no duplicates, no phantoms, progress, termination, and agreement of ids/handles/attributes with LOOKUP+GETATTR; every returned cookie re-used; a mutation (add / remove listed / remove unlisted) at every page boundary of the multi-page limits.",
+   note="Trusted: reference model for ids/handles/attributes. Bounds: shapes up to 70 entries, grids as stated (step 8 away from thresholds), 80-call cap, mutation only between calls (during a call: C03 harness readdirplus-create-remove).",
+   technique="bounded-exhaustive enumeration of inputs (limits, cookies, mutation points) against the implementation with a set-based oracle",
+   ref="DESIGN.md 4 (C13)"),
  "C12": dict(
    text="Block-recycling search on disks with 12 and 40 data blocks (every freed block is reused at once): breadth-first over fills with recognisable patterns, truncations to aligned/unaligned sizes, growth, partial writes, writes past the end, removal, re-creation, restart; every file read in full after every transition and compared byte for byte with the reference; plus every crash image of the recycling histories, recovered and compared byte-exactly with the prefix states.",
    note="Trusted: reference model bytes. On a full disk a READ of a hole may return short (materialising the hole needs a block) and a WRITE may be short; both are tolerated as implementation-only failures as long as the bytes returned are right. The zero-scan of free blocks is not a verdict (mechanism, not property). Bounds: depth, two files, pattern alphabet.",
